@@ -341,6 +341,39 @@ def slot_text_audit(received, obs):
     return out
 
 
+def surplus_items(data):
+    ''' canonical blocks of the received octets that have more array items than 5 + (CRC type 1/2 ? 1 : 0):
+    [(block index, type code, items, allowed)] — read independently and tolerantly (the items after
+    the surplus ones may be anything) '''
+    out = []
+    try:
+        if not data or data[0] != 0x9f:
+            return out
+        pos = 1
+        idx = 0
+        while pos < len(data) and data[pos] != 0xff:
+            mt, n, p = cb_read_head(data, pos)
+            if mt != 4:
+                return out
+            items = []
+            for _ in range(n):
+                e = cb_skip(data, p)
+                items.append((p, e))
+                p = e
+            if idx > 0 and n >= 5:
+                m0, ty, _ = cb_read_head(data, items[0][0])
+                m3, ct, _ = cb_read_head(data, items[3][0])
+                if m0 == 0 and m3 == 0:
+                    allowed = 5 + (1 if ct in (1, 2) else 0)
+                    if n > allowed:
+                        out.append((idx, ty, n, allowed))
+            pos = p
+            idx += 1
+    except (ValueError, IndexError):
+        pass
+    return out
+
+
 def crc_bitwise(width, poly_reflected, data):
     ''' bit-at-a-time reflected CRC, init = xorout = all ones (independent of the crcmod stub) '''
     mask = (1 << width) - 1
